@@ -89,6 +89,27 @@ theorem divFloor_char (a b : LB) (ha : a.wf) (hb : b.wf) (h0 : b.den ≠ 0) :
       ∃ r, a.den = q * b.den + r ∧ (0 < b.den → 0 ≤ r ∧ r < b.den) ∧ (b.den < 0 → b.den < r ∧ r ≤ 0) :=
   ⟨_, divFloor_correct a b ha hb h0, Arith.fdiv_char a.den b.den h0⟩
 
+/-- the `(Short, Long)` arms of `div_floor` / `div_ceil`: a one-word dividend by a long divisor.  The floored quotient
+is 0 or -1 by the signs alone; the ceiling quotient is 0 or 1 by the signs alone EXCEPT at the single point
+`-2^63 / 2^63` (a one-word value whose magnitude equals that of the smallest long), where it is -1. -/
+theorem short_long_quotient (s b : Int) (hs : (short s).wf) (hb : (long b).wf) :
+    LB.divFloor (short s) (long b) = .ok (short (if s = 0 ∨ (s < 0 ↔ b < 0) then 0 else -1)) ∧
+    LB.divCeil (short s) (long b) = .ok (short
+      (if s = -9223372036854775808 ∧ b = 9223372036854775808 then -1
+       else if s = 0 ∨ ¬ (s < 0 ↔ b < 0) then 0 else 1)) := by
+  rw [wf_short] at hs
+  rw [wf_long] at hb
+  simp only [LB.divFloor, LB.divCeil, LB.cdiv]
+  rcases hb with hb | hb
+  · rw [Arith.fdiv_small_neg s b (by omega) (by omega) (by omega),
+        Arith.fdiv_small_neg (-s) b (by omega) (by omega) (by omega)]
+    constructor <;> (repeat' split) <;> first | rfl | (exfalso; omega)
+  · rw [Arith.fdiv_small_pos s b (by omega) (by omega) (by omega),
+        Arith.fdiv_small_pos (-s) b (by omega) (by omega) (by omega)]
+    constructor <;> (repeat' split) <;> first | rfl | (exfalso; omega)
+
+example : LB.divCeil (short (-9223372036854775808)) (long 9223372036854775808) = .ok (short (-1)) := by decide
+example : LB.divFloor (short (-9223372036854775808)) (long 9223372036854775808) = .ok (short (-1)) := by decide
 /-! ### the builtin layer (`int.rs`): guards give error *values*, never panics -/
 
 /-- `a % b` of the language is the floored modulo (sign of the divisor), for every nonzero divisor -/
